@@ -15,7 +15,8 @@ PROPERTY = "C10"
 WLS = [wl("chain3"), wl("diamond"), wl("multitask"), wl("fail_mid"), wl("continue_on_fail"), wl("skip_stage"),
        wl("poll", 2), wl("transient", 1, True), wl("transient", 1, False), wl("synthetic"), wl("or_split_join"),
        wl("jump_self", 1), wl("jump_cycle", 2, 1), wl("jump_forward_diamond", 1), wl("suspend_gate"),
-       wl("synthetic_gate"), wl("synthetic_multitask"), wl("synthetic2"), wl("synthetic_raise")]
+       wl("synthetic_gate"), wl("synthetic_multitask"), wl("synthetic2"), wl("synthetic_raise"),
+       wl("jump_forward_multitask", 1), wl("jump_back_multitask", 1), wl("synthetic2_multitask"), wl("declared_after_ok")]
 BIG = [wl("diamond_multitask"), wl("fail_branch"), wl("first_of"), wl("quorum"), wl("fan3"), wl("jump_side_fanin", 1),
        wl("multi_merge"), wl("mutex2"), wl("choice2")]
 CRASH = [wl("diamond"), wl("multitask"), wl("poll", 2), wl("synthetic"), wl("jump_cycle", 2, 1), wl("fail_mid")]
